@@ -8,6 +8,42 @@ VERIF = os.path.dirname(os.path.dirname(os.path.abspath(__file__)))
 PY = "/venv/bin/python harness/vcheck.py"
 
 CLAIMED = {
+    "C02": dict(
+        category="proof", design_ref="DESIGN.md 5 C02",
+        text="Lean 4 theorems over a heap model of TrackedArray (buffers, window objects, dirty flag, memoised "
+             "hash, flagged method table regenerated from caching.py on every run): for programs of any length, "
+             "if every write is tracked for every observer (flagged method of the written object, no other "
+             "observer of the written cells holds a clean memo) every tracked object's hash equals the hash of "
+             "its current bytes (C02_hash_correct_partial), a hash read returns the current bytes, non-writing "
+             "operations keep bytes; (G) every ndarray in-place method/operator is overridden and "
+             "__array_finalize__/__hash__ have the protocol's shape (decide over the generated table). The full "
+             "statement is proved FALSE for the code as it is (witnesses: held view, function routes), which are "
+             "the listed known findings. Tied to the code by comparing, after every step of random numpy "
+             "programs, the dirty flag of every live object and the staleness of every hash read with the model "
+             "(exact agreement required), and by mesh/path/scene/visual level edits.",
+        note="Trusted: Lean kernel (+propext/Classical.choice/Quot.sound), hash injectivity, the route table "
+             "(which numpy call reaches which override) exercised by the harness. Partial: the property itself "
+             "fails on 8 listed routes (known findings) - the theorem covers exactly the complement.",
+        technique="Lean 4 proof (invariant over op lists) + generated table obligations + differential correspondence"),
+    "C09": dict(
+        category="proof", design_ref="DESIGN.md 5 C09",
+        text="Lean 4 theorems generic in the node type and in any group of edge matrices: well-formedness "
+             "(one parent per child, parents = edge keys, acyclic) is preserved by add_edge (incl. re-parenting, "
+             "overwriting) and remove_node; in every well-formed forest path resolution returns "
+             "world(a)^-1 * world(b) - the product of the current edges along the unique path, inverted where "
+             "walked child->parent - and an error for frames in different trees (C09_get_spec); T(a,a)=1, "
+             "T(a,c)=T(a,b)T(b,c), T(a,b)=T(b,a)^-1; an updated edge is visible at once; and for every history of "
+             "updates / re-parentings / removals / base changes / clear / interleaved queries that closes no cycle "
+             "the cached query (hash memo, path cache, hash-validated transform cache) equals the cache-free "
+             "resolution (C09_cached_get_eq_raw), given the invalidation table regenerated from transforms.py on "
+             "every run (decide). Witnesses: stale answer without the hash reset; cached/uncached disagree on a "
+             "4-cycle (outside the property's domain). Tied to the code by differential histories on float-exact "
+             "matrices against the model and against a dictionary forest.",
+        note="Trusted: Lean kernel (+propext/Classical.choice/Quot.sound), the forest hash taken as injective, "
+             "np.linalg.inv / multi_dot as exact group operations on the generated matrix family; kwargs_to_matrix "
+             "trigonometry and fix_rigid only by correspondence at 1e-9. One defect repaired (re-parenting left the "
+             "superseded edge).",
+        technique="Lean 4 proof (refinement of the cached state machine to path products) + generated table + differential histories"),
     "C05": dict(
         category="proof", design_ref="DESIGN.md 5 C05",
         text="Lean 4 theorems for arbitrary face lists (non-manifold, repeated indices, repeated faces, "
